@@ -76,3 +76,68 @@ register(
     )
 )
 seq_spec("C10", P.sweep_C10, 2000, 40000, "seeded link histories, then token chains for every webentity x source-page counts x 3 switch settings compared with the unpaginated answer of the same index; non-trivial when a chain needs >= 3 calls; distinct = distinct event digests")
+
+# ---------------------------------------------------------------------------
+from . import queries as QQ
+
+
+def _gen_C14(rng, tier, seed):
+    g = Gen(rng, "C14", tier, backend=rng.choice(["sim", "sim", "mem"]))
+    if g.nops > 40:
+        g.nops = 40
+    c = g.case(seed)
+    c["config"]["sweep_every"] = rng.choice([0, 0, 4, 8])
+    if c["config"]["backend"] == "mem":
+        c["ops"] = [o for o in c["ops"] if o["op"] != "reopen"]
+    return c
+
+
+register(
+    _Spec(
+        "C14",
+        _gen_C14,
+        lambda case: run_sequential(case, QQ.sweep_C14, prop="C14"),
+        800,
+        16000,
+        "exploration",
+        "seeded states (file back-end on SimDisk, or memory back-end) x every read-only entry point (~45 methods, present / absent / unknown arguments, valid and stale tokens, generators abandoned half-way); non-trivial when the state holds pages and webentities; distinct = distinct event digests",
+        "sequential-history + read-only call sweep",
+        components_stub=STUBS,
+        fault_kinds=["queries", "query_refused", "query_returned"],
+        assumptions=["the simulated disk's write log sees every write the library issues (all file I/O goes through the seam)"],
+    )
+)
+
+# ---------------------------------------------------------------------------
+from . import twins as T
+
+register(
+    _Spec(
+        "C15",
+        T.gen_C15,
+        T.run_C15,
+        1500,
+        30000,
+        "exploration",
+        "twin run: Traph(folder=None) and a fresh file-backed Traph (SimDisk, or real files in 20% of runs for the mmap clause) with the same constructor configuration (rules, overwrite flag) and the same seeded history; reports, refusals, answers and store bytes compared after every request; non-trivial when >= 3 pages; distinct = distinct event digests",
+        "back-end twin",
+        components_stub=STUBS + ["(real-file runs use no stub at all)"],
+        fault_kinds=["mmap_taken"],
+        assumptions=["the memory-map clause needs a real file descriptor: it is evaluated in real-file runs only", "observation questions are derived from the model state, which follows the file-backed twin"],
+    )
+)
+register(
+    _Spec(
+        "C11",
+        T.gen_C11,
+        T.run_C11,
+        400,
+        6000,
+        "fault_enumeration",
+        "per sampled history: close+reopen inserted at EVERY position (one variant per position, all enumerated), plus seeded multi-restart sets and 'reopen after every request', plus clear(default, rules) at seeded positions against a fresh index; every variant compared request by request (outcome, bytes of both stores) and answer by answer with the never-closed baseline; non-trivial when >= 3 requests and >= 2 pages; distinct = distinct baseline digests",
+        "restart twin (fault enumeration over restart positions)",
+        components_stub=STUBS + ["(8% of runs on real files: Python's buffered file objects, real close/reopen)"],
+        fault_kinds=["reopen", "clear", "restart_variants"],
+        assumptions=["rules are re-supplied on reopen as the API requires", "clear() without rule arguments is not an equivalence case (the statement defines the result only for the rules given to the clear request)"],
+    )
+)
